@@ -133,6 +133,9 @@ func szConst(c szCol, seed uint64, ci int, k int64) (ast.Constant, error) {
 		}
 		l := len(x.String())
 		if l <= want {
+			if c.Kind == "str" { // exact printed length: the lengths around a buffer size (4096, 8192, ...) are aimed at
+				x = ast.String(x.Symbol + strings.Repeat("x", want-l))
+			}
 			return x, nil
 		}
 		c.Len = c.Len*want/l - 8
